@@ -140,6 +140,19 @@ func boltUpstream() string {
 						c.Write([]byte{1, 0x7f, 0xde, 0xad, 0xbe, 0xef, 0, 1, 2, 3, 4, 5, 6, 7, 8, 9, 10, 11, 12, 13, 14, 15, 16, 17, 18, 19, 20, 21})
 					case bytes.Contains(hdr, []byte("dangling")):
 						c.Write(boltFrame(0, id, 0, [][2]string{{"service", "c08"}}, []byte("pong"), 1))
+					case bytes.Contains(hdr, []byte("slow")):
+						go func(id uint32) {
+							time.Sleep(700 * time.Millisecond)
+							c.Write(boltFrame(0, id, 0, [][2]string{{"service", "c08"}}, []byte("pong"), 0))
+						}(id)
+					case bytes.Contains(hdr, []byte("stray")):
+						// a response for an id that was never requested, a heartbeat response out of nowhere, the response, the response again
+						c.Write(boltFrame(0, id+100000, 0, [][2]string{{"service", "c08"}}, []byte("pong"), 0))
+						hb := boltFrame(0, id+200000, 0, nil, nil, 0)
+						hb[2], hb[3] = 0, 0 // command code heartbeat
+						c.Write(hb)
+						c.Write(boltFrame(0, id, 0, [][2]string{{"service", "c08"}}, []byte("pong"), 0))
+						c.Write(boltFrame(0, id, 0, [][2]string{{"service", "c08"}}, []byte("pong"), 0))
 					default:
 						c.Write(boltFrame(0, id, 0, [][2]string{{"service", "c08"}}, []byte("pong"), 0))
 					}
@@ -249,7 +262,20 @@ func badH2Upstream() string {
 								}
 							}
 						}
-						if strings.Contains(path, "ok") { // a proper answer: status 200, body "ok"
+						if strings.Contains(path, "unk") { // DATA for a stream the proxy never opened, then the answer
+							c.Write(rawFrame(0, 0, x.StreamID+2, 3, []byte("xyz")))
+						}
+						if strings.Contains(path, "push") {
+							pp := append(be32(2), 0x82, 0x86, 0x84)
+							c.Write(rawFrame(5, 0x4, x.StreamID, len(pp), pp))
+						}
+						if strings.Contains(path, "extra") { // the answer, then DATA and HEADERS for the stream just closed
+							c.Write(rawFrame(1, 0x4, x.StreamID, 1, []byte{0x88}))
+							c.Write(rawFrame(0, 0x1, x.StreamID, 2, []byte("ok")))
+							c.Write(rawFrame(0, 0, x.StreamID, 3, []byte("xyz")))
+							c.Write(rawFrame(0, 0, x.StreamID, 0, nil))
+							c.Write(rawFrame(1, 0x5, x.StreamID, 1, []byte{0x88}))
+						} else if strings.Contains(path, "ok") || strings.Contains(path, "unk") || strings.Contains(path, "push") { // a proper answer: status 200, body "ok"
 							c.Write(rawFrame(1, 0x4, x.StreamID, 1, []byte{0x88}))
 							c.Write(rawFrame(0, 0x1, x.StreamID, 2, []byte("ok")))
 						} else if strings.Contains(path, "dup") { // :status twice
@@ -481,6 +507,12 @@ func (t *ftrace) Emit(e vh.Ev) {
 	t.n++
 	t.mu.Unlock()
 }
+func newFtrace(path string) *ftrace {
+	f, err := os.Create(path)
+	vh.Must(err, "trace file")
+	return &ftrace{f: f}
+}
+
 func (t *ftrace) Len() int { t.mu.Lock(); defer t.mu.Unlock(); return t.n }
 func (t *ftrace) Close()   { t.mu.Lock(); t.f.Sync(); t.mu.Unlock() }
 
@@ -723,6 +755,46 @@ func poisonBytes(p poison) []byte {
 		return append(h2Preface(), rawFrame(1, 0x5|0x8, 1, len(blk), blk)...)
 	case "http2/window-update-zero-on-stream":
 		return append(h2Preface(), rawFrame(8, 0, 1, 4, []byte{0, 0, 0, 0})...)
+	case "http2/data-after-end-stream":
+		b := append(h2Preface(), seqFrame(seqStep{Op: "H", Sid: 1, End: true}, false)...)
+		return append(b, seqFrame(seqStep{Op: "D", Sid: 1, N: 5}, false)...)
+	case "http2/empty-data-after-end-stream":
+		b := append(h2Preface(), seqFrame(seqStep{Op: "H", Sid: 1, End: true}, false)...)
+		return append(b, seqFrame(seqStep{Op: "D", Sid: 1, N: 0}, false)...)
+	case "http2/data-after-rst-stream":
+		b := append(h2Preface(), seqFrame(seqStep{Op: "H", Sid: 1}, false)...)
+		b = append(b, seqFrame(seqStep{Op: "R", Sid: 1}, false)...)
+		return append(b, seqFrame(seqStep{Op: "D", Sid: 1, N: 5}, false)...)
+	case "http2/data-after-trailers":
+		b := append(h2Preface(), seqFrame(seqStep{Op: "H", Sid: 1}, false)...)
+		b = append(b, seqFrame(seqStep{Op: "T", Sid: 1, End: true}, false)...)
+		return append(b, seqFrame(seqStep{Op: "D", Sid: 1, N: 5}, false)...)
+	case "http2/data-on-idle-stream":
+		return append(h2Preface(), seqFrame(seqStep{Op: "D", Sid: 1, N: 5}, false)...)
+	case "http2/headers-even-stream-id":
+		return append(h2Preface(), seqFrame(seqStep{Op: "H", Sid: 2, End: true}, false)...)
+	case "http2/headers-lower-stream-id":
+		b := append(h2Preface(), seqFrame(seqStep{Op: "H", Sid: 3, End: true}, false)...)
+		return append(b, seqFrame(seqStep{Op: "H", Sid: 1, End: true}, false)...)
+	case "http2/window-update-idle-stream":
+		return append(h2Preface(), seqFrame(seqStep{Op: "W", Sid: 1, N: 1}, false)...)
+	case "http2/trailers-after-end-stream":
+		b := append(h2Preface(), seqFrame(seqStep{Op: "H", Sid: 1, End: true}, false)...)
+		return append(b, seqFrame(seqStep{Op: "T", Sid: 1, End: true}, false)...)
+	case "http2/headers-while-block-open":
+		b := append(h2Preface(), seqFrame(seqStep{Op: "HO", Sid: 1, End: true}, false)...)
+		return append(b, seqFrame(seqStep{Op: "H", Sid: 3, End: true}, false)...)
+	case "http2/rst-stream-idle-stream":
+		return append(h2Preface(), seqFrame(seqStep{Op: "R", Sid: 1}, false)...)
+	case "bolt/response-out-of-nowhere":
+		return boltFrame(0, 999, 0, [][2]string{{"service", "c08"}}, []byte("pong"), 0)
+	case "bolt/heartbeat-response-out-of-nowhere":
+		hb := boltFrame(0, 998, 0, nil, nil, 0)
+		hb[2], hb[3] = 0, 0
+		return hb
+	case "bolt/request-id-reused-while-open":
+		b := boltFrame(1, 777, 0, [][2]string{{"service", "c08"}, {"beh", "slow"}}, []byte("ping"), 0)
+		return append(b, boltFrame(1, 777, 0, [][2]string{{"service", "c08"}, {"beh", "ok"}}, []byte("ping"), 0)...)
 	case "bolt/repeated-header-key":
 		return boltFrame(1, 4321, 0, [][2]string{{"service", "c08"}, {"service", "nowhere"}, {"beh", "ok"}, {"beh", "garbage"}}, []byte("ping"), 0)
 	}
@@ -776,6 +848,10 @@ func runE2E(casesPath, tracePath string) {
 		var p poison
 		if err := json.Unmarshal(raw, &p); err != nil {
 			return err
+		}
+		key := p.Proto + "/" + p.Name
+		if skipSet[key] || (e2eOnly != "" && e2eOnly != key) {
+			return nil
 		}
 		menu = append(menu, p)
 		return nil
@@ -924,6 +1000,8 @@ func runE2E(casesPath, tracePath string) {
 					beh := "garbage"
 					if strings.Contains(p.Name, "dangling") {
 						beh = "dangling"
+					} else if strings.Contains(p.Name, "stray") {
+						beh = "stray"
 					}
 					c.Write(boltFrame(1, 4242, 0, [][2]string{{"service", "c08"}, {"beh", beh}}, []byte("ping"), 0))
 				} else if p.Proto == "http2" && strings.Contains(p.Name, "upstream-settings") {
@@ -947,6 +1025,12 @@ func runE2E(casesPath, tracePath string) {
 						path = "/badidx"
 					} else if strings.Contains(p.Name, "duplicate") {
 						path = "/baddup"
+					} else if strings.Contains(p.Name, "unknown-stream") {
+						path = "/bad/unk"
+					} else if strings.Contains(p.Name, "push-promise") {
+						path = "/bad/push"
+					} else if strings.Contains(p.Name, "closed-stream") {
+						path = "/bad/extra"
 					}
 					blk := append([]byte{0x82, 0x86, 0x04, byte(len(path))}, path...)
 					blk = append(append(blk, 0x01, 0x08), "c08.test"...)
@@ -998,7 +1082,7 @@ func runE2E(casesPath, tracePath string) {
 					}
 					tr.Emit(vh.Ev{"ev": "followup", "c": id, "res": fres, "bytes": n, "detail": fd, "name": p.Name, "proto": p.Proto})
 				case "bolt":
-					if strings.Contains(p.Name, "repeated") {
+					if p.Class == "any" && p.Name != "noise" {
 						ok, fd := serveBolt(c, r, uint32(5000+i), "ok", wait)
 						fres := "served"
 						if !ok {
@@ -1030,6 +1114,11 @@ func runE2E(casesPath, tracePath string) {
 	batch0 := allocated()
 	for i, p := range menu {
 		if (p.Proto == "http2" && !h2ok) || bodySize(p) != "" {
+			continue
+		}
+		if e2eSequential {
+			// one poison at a time: when the process dies, the last poison event names the one that did it
+			runPoison(i, p, 1500*time.Millisecond, false)
 			continue
 		}
 		wg.Add(1)
